@@ -27,6 +27,13 @@ def centred_lattice(rng, n, m, r=4, kind="full"):
             return A
 
 
+def sq(v):
+    """a score in fixed point; a relative loss with a vanishing denominator (zero data handed to score) is not a number:
+    logged as a value beyond every range, which the specification does not decide"""
+    v = float(v)
+    return int(round(v * S)) if np.isfinite(v) and abs(v) < 1e5 else 2000000000
+
+
 def regressor_for(route):
     from sklearn.linear_model import LinearRegression, Ridge
     if route == "default":
@@ -70,7 +77,7 @@ def fit_record(Xi, Yi, a, k, space, solver, route, y1d=False, Xn=None, pre=None,
                         "pxt": fq(m_.pxt_), "pty": fq(np.reshape(m_.pty_, (k, -1))), "ptx": fq(m_.ptx_),
                         "pxy": fq(np.reshape(m_.pxy_, (X.shape[1], -1))),
                         "pred_ndim": int(np.ndim(Yp)), "pxy_ndim": int(np.ndim(m_.pxy_)), "pty_ndim": int(np.ndim(m_.pty_)),
-                        "score": int(round(float(m_.score(X, Yarg if route != "pre" else Yarg)) * S)) if route != "pre" else 0,
+                        "score": sq(m_.score(X, Yarg)) if route != "pre" else 0,
                         "Xn": [], "Tn": [], "Ypn": [], "YpTn": [], "Yn": [], "Xrn": [], "scoren": 0, "lamfull": [], "cmpY": True,
                         "comp": [], "That": [], "pcaV": [], "lrW": []})
             # the documented third argument of score: latent coordinates supplied by the caller (here: the last component
@@ -79,7 +86,7 @@ def fit_record(Xi, Yi, a, k, space, solver, route, y1d=False, Xn=None, pre=None,
             if route != "pre" and k >= 2:
                 Ts = T.copy(); Ts[:, -1] = 0.0
                 rec.update({"XrS": fq(m_.inverse_transform(Ts)), "YpS": fq(np.reshape(m_.predict(T=Ts), (len(X), -1))),
-                            "scoreS": int(round(float(m_.score(X, Yarg, T=Ts)) * S))})
+                            "scoreS": sq(m_.score(X, Yarg, T=Ts))})
             if Xn is not None:
                 Xnf = Xn / 4.0
                 Tn = m_.transform(Xnf)
@@ -89,7 +96,7 @@ def fit_record(Xi, Yi, a, k, space, solver, route, y1d=False, Xn=None, pre=None,
                     # score on data the model was not fitted on (targets of the new rows: a fixed linear map of them)
                     Ynf = (Xnf[:, :1] - Xnf[:, 1:2] * 0.5) @ np.ones((1, Y.shape[1])) + 0.25
                     Ynarg = Ynf[:, 0] if y1d else Ynf
-                    rec.update({"Yn": fq(Ynf), "Xrn": fq(m_.inverse_transform(Tn)), "scoren": int(round(float(m_.score(Xnf, Ynarg)) * S))})
+                    rec.update({"Yn": fq(Ynf), "Xrn": fq(m_.inverse_transform(Tn)), "scoren": sq(m_.score(Xnf, Ynarg))})
             rec["_Yh"] = Yh
             rec["_W"] = m_.regressor_.coef_.T.reshape(X.shape[1], -1) if route != "pre" else None
             # size of the weights of the (sklearn) regressor: an ill-posed regression (exactly singular X with an unregularised
